@@ -38,6 +38,13 @@ impl Rng {
         let s = [splitmix64(&mut x), splitmix64(&mut x), splitmix64(&mut x), splitmix64(&mut x)];
         Rng { s }
     }
+    /// The generator's state, so that a witness can store the point a workload had reached.
+    pub fn state(&self) -> [u64; 4] {
+        self.s
+    }
+    pub fn from_state(s: [u64; 4]) -> Rng {
+        Rng { s }
+    }
     /// RNG of one case: a pure function of (seed, property/stream tag, shard, index).
     pub fn for_case(seed: u64, tag: &str, shard: u64, index: u64) -> Rng {
         let mut x = seed ^ fnv(tag).rotate_left(17) ^ shard.wrapping_mul(0xA24B_AED4_963E_E407) ^ index.wrapping_mul(0x9FB2_1C65_1E98_DF25);
